@@ -77,7 +77,14 @@ func opsExec(raw json.RawMessage, hist []string, deep bool) *bfsResult {
 		migs = append(migs, fmt.Sprintf("%x>%x", k[:3], mg.NewGCA[:3]))
 	}
 	sort.Strings(migs)
-	res.Key = fmt.Sprintf("%s|now=%d|servers=%v|migr=%v", w.M.valueKey(), w.Now, srvs, migs)
+	// The durable files are part of the state: two histories with equal in-memory state but different logs on
+	// disk (e.g. reports of a since-banned device) have different futures as soon as the server restarts.
+	var disk []string
+	for _, f := range []string{"equipment-reports.dat", "equipment-authorizations.dat", "allDeviceStats.dat", "gcaPubKey.dat"} {
+		b, _ := readFileMaybe(w.Dir, f)
+		disk = append(disk, fmt.Sprintf("%d:%x", len(b), keccak(b)[:6]))
+	}
+	res.Key = fmt.Sprintf("%s|now=%d|servers=%v|migr=%v|disk=%v", w.M.valueKey(), w.Now, srvs, migs, disk)
 	res.Outcome = fmt.Sprintf("devs=%d bans=%d off=%d arch=%d reg=%v", len(w.M.Devices), len(w.M.Bans), w.M.Offset, len(w.M.Archive), w.M.Registered)
 	if !deep || !res.Expand {
 		return res
